@@ -22,11 +22,19 @@
 #define PAYLOAD 0
 #endif
 using namespace ffsm2; using namespace ffsm2::detail;
+#ifndef MANUAL
+#define MANUAL 0     // 1: manual activation, so that histories can deactivate and re-activate the machine (PlanData::clear)
+#endif
+#if MANUAL
+typedef Config::ManualActivation BaseCfg;
+#else
+typedef Config BaseCfg;
+#endif
 #if PAYLOAD
 struct Pay { unsigned v; };
-using M = MachineT<Config::TaskCapacityN<CAP>::PayloadT<Pay>>;
+using M = MachineT<BaseCfg::TaskCapacityN<CAP>::PayloadT<Pay>>;
 #else
-using M = MachineT<Config::TaskCapacityN<CAP>>;
+using M = MachineT<BaseCfg::TaskCapacityN<CAP>>;
 #endif
 struct A; struct B; struct C;
 using FSM = M::PeerRoot<A, B, C>;
@@ -159,6 +167,9 @@ static void one_operation(bool inductive) {
       } mn--; }
   } else if (op == 2) { g->plan().clear(); mn = 0; }
   else if (op == 3 && !inductive) { g->update(); }           // consumption / outcome clearing are exercised by the plan harness (C08/C09)
+#if MANUAL
+  else if (op == 4 && !inductive) { g->exit(); g->enter(); mn = 0; }     // deactivation clears the plan; the slots must all be reusable afterwards
+#endif
   (void)inductive;
 }
 #endif
@@ -192,6 +203,9 @@ extern "C" int harness(void) {
   vwitness(9001);
 #elif MODE == 1
   Inst m; g = &m;
+#if MANUAL
+  m.enter();
+#endif
   { bool occ[CAP]; for (int i = 0; i < CAP; i++) occ[i] = false; Long seq[CAP + 1]; int n = 0;
     vassert(inv_tasks(m._core.planData.tasks, occ), 1040); vassert(inv_plan(m._core.planData, occ, seq, n) && n == 0, 1041); }   // base case
   mn = 0;
@@ -206,6 +220,9 @@ extern "C" int harness(void) {
   vassert(!m.plan().change(0, 1), 1061);
   check_plan_equals_model(1070);
   vwitness(9001);
+#if MANUAL
+  m.exit();
+#endif
 #else
 #if PAYLOAD
   typedef TaskListT<Pay, CAP> TL;
